@@ -69,12 +69,13 @@ pub fn run(a: &Args) {
         let job = |id: AV| AGroup { tag: 2, attrs: vec![("job-id".into(), id), ("job-state".into(), AV::Enum(3)), ("job-uri".into(), AV::Str("Uri", "ipp://x/jobs/5".into()))] };
         if c["prog"] == "multi-doc" {
             if nth == 0 {
+                let asked = requested_attrs(&seen.body);
                 let pg = |ops: Option<AV>| {
                     let mut at = vec![("printer-name".to_string(), AV::Str("NameWithoutLanguage", "p".into()))];
                     if let Some(o) = ops {
                         at.insert(rot % 2, ("operations-supported".to_string(), o));
                     }
-                    AGroup { tag: 4, attrs: at }
+                    AGroup { tag: 4, attrs: filter_requested(at, &asked) }
                 };
                 match c["ops"].as_str().unwrap() {
                     "both" => ok(ipp_response(0, rid, vec![pg(Some(en(&[2, 4, 5, 6, 8, 9, 10, 11])))])),
